@@ -243,6 +243,12 @@ def same_instance(rep, rnd, payload):
     eng.assert_fact('f0', [[Sym('f'), 'h', [Sym('a'), 'a'], [Sym('v'), 41]]])
     eng.assert_fact('bk', [[Sym('f'), 'room', [Sym('i'), 1]], [Sym('v'), 42]])
     eng.assert_fact('bk', [[Sym('f'), 'h', [Sym('a'), 'b'], [Sym('a'), 'c']], [Sym('f'), 'f', [Sym('v'), 43]]])
+    # deep goals parked next to each other: each suspended query holds its whole chain of calls
+    eng.load([('dp', [('A', 'z')], 'tru'), ('dp', [('F', 's', [('V', 'N')])], ('call', 'dp', [('V', 'N')]), True)], overwrite=False)
+    deep = [Sym('a'), 'z']
+    for _ in range(rnd.choice([60, 120, 150])):
+        deep = [Sym('f'), 's', deep]
+    qs = qs + [('dp', [deep]), ('dp', [deep])]
     qs = qs + [('bk', [[Sym('f'), 'room', [Sym('i'), 1]], [Sym('a'), 'alice']]), ('bk', [[Sym('v'), 0], [Sym('v'), 1]]),
                ('bk', [[Sym('v'), 0], [Sym('f'), 'f', [Sym('a'), 'bob']]])]
     rnd.shuffle(qs)
